@@ -1616,7 +1616,14 @@ class Interp:
             if fv.kind == "repo":
                 fi = self.p.functions[fv.target]
                 args = ([fv.bound_self] if fv.bound_self is not None else []) + pos
-                self.event("repo-call", n, target=fv.target, pos=args, kwargs=kwargs)
+                ps = fi.params
+                bound = {ps[k]: v for k, v in enumerate(args) if k < len(ps)}
+                bound.update(kwargs)
+                self.event("repo-call", n, target=fv.target, pos=args, kwargs=kwargs, bound=bound)
+                stubs = self.cfg.flags.get("stub_func") or {}
+                if fv.target in stubs:
+                    # a rule asked to observe this call instead of executing the callee
+                    return stubs[fv.target](self, bound, n)
                 return self.call_function(fi, args, kwargs, n)
             if fv.kind == "class":
                 return self.construct(fv.target, pos, kwargs, n)
